@@ -334,11 +334,22 @@ fn handle(ctx: &mut rink_core::Context, req: &J) -> J {
             }
             // aliases: a unit carrying another unit's dimension tag; definitions: name -> unit name, or null for a
             // non-alias definition
+            let plain = req.get("plain_dims").and_then(|x| x.as_bool()).unwrap_or(false);
             if let Some(al) = req.get("unit_dims").and_then(|x| x.as_object()) {
                 for (k, stem) in al {
                     if let Some(n) = c.registry.units.get_mut(k) {
-                        n.unit = vec![(BaseUnit::new(&format!("u_{}", stem.as_str().unwrap())), 1i64)].into_iter().collect();
+                        let d = if plain { stem.as_str().unwrap().to_string() } else { format!("u_{}", stem.as_str().unwrap()) };
+                        n.unit = vec![(BaseUnit::new(&d), 1i64)].into_iter().collect();
                     }
+                }
+            }
+            // base-unit long names as the loader files them: long name map, alias unit, alias definition
+            if let Some(ln) = req.get("long_names").and_then(|x| x.as_object()) {
+                for (k, long) in ln {
+                    let long = long.as_str().unwrap().to_string();
+                    c.registry.base_unit_long_names.insert(k.clone(), long.clone());
+                    c.registry.definitions.insert(long.clone(), rink_core::ast::Expr::new_unit(k.clone()));
+                    c.registry.units.insert(long, Number::one_unit(BaseUnit::new(k)));
                 }
             }
             if let Some(defs) = req.get("definitions").and_then(|x| x.as_object()) {
@@ -362,7 +373,20 @@ fn handle(ctx: &mut rink_core::Context, req: &J) -> J {
                                  "lookup_canon": canon.as_ref().and_then(|k| c.lookup(k)).map(|x| out_number(&x)),
                                  "canonicalize": canon}));
             }
-            json!({"outcome": "ok", "lookups": outs})
+            // definition queries (`name` alone) through eval_query on the synthetic database
+            let mut defs = vec![];
+            if let Some(names) = req.get("define").and_then(|x| x.as_array()) {
+                for n in names {
+                    let q = rink_core::ast::Query::Expr(rink_core::ast::Expr::new_unit(n.as_str().unwrap().to_string()));
+                    let r = catch_unwind(AssertUnwindSafe(|| c.eval_query(&q)));
+                    defs.push(match r {
+                        Ok(Ok(reply)) => json!({"outcome": "ok", "display": reply.to_string()}),
+                        Ok(Err(e)) => json!({"outcome": "err", "display": e.to_string()}),
+                        Err(p) => json!({"outcome": "panic", "panic": panic_msg(p)}),
+                    });
+                }
+            }
+            json!({"outcome": "ok", "lookups": outs, "defines": defs})
         }),
         "rat_to_string" => guarded(|| {
             // BigRat::to_string / to_scientific at the unit level (both pub): (exact flag, numeral text)
